@@ -50,7 +50,12 @@ func contextWithValidator(ctx context.Context, v Validator) context.Context {
 	if v == nil {
 		return ctx
 	}
-	list := append(Validators(ctx), v)
+	// a list of its own: contexts derived from the same parent must not share
+	// the array their validators are appended to
+	prev := Validators(ctx)
+	list := make([]Validator, len(prev), len(prev)+1)
+	copy(list, prev)
+	list = append(list, v)
 	return context.WithValue(ctx, validtorsKey, list)
 }
 
